@@ -974,6 +974,62 @@ fn cfg_state(rng: &mut Rng) -> Cfg {
 
 // ================================================================ T-timer (ticker thread vs sleepers)
 
+const TM_SET: u32 = 0;
+const TM_CHECK: u32 = 1;
+const TM_POLL: u32 = 2;
+const TM_DROP: u32 = 3;
+
+/// forwards to the real waker and tells the history which timer was woken
+struct AttribWaker {
+    inner: std::task::Waker,
+    id: u32,
+    woken: Arc<AtomicU64>,
+}
+impl std::task::Wake for AttribWaker {
+    fn wake(self: Arc<Self>) {
+        self.wake_by_ref()
+    }
+    fn wake_by_ref(self: &Arc<Self>) {
+        self.woken.fetch_or(1u64 << (self.id & 63), SeqCst);
+        self.inner.wake_by_ref();
+    }
+}
+
+/// logs every poll (and the drop) of a timer future as one operation of the history
+struct LoggedTimer<F> {
+    fut: Option<F>,
+    hist: Arc<History>,
+    woken: Arc<AtomicU64>,
+    thread: u32,
+    id: u32,
+    completed: bool,
+}
+impl<F: Future<Output = ()>> Future for LoggedTimer<F> {
+    type Output = ();
+    fn poll(self: Pin<&mut Self>, cx: &mut Context<'_>) -> Poll<()> {
+        let this = unsafe { self.get_unchecked_mut() };
+        let w = std::task::Waker::from(Arc::new(AttribWaker { inner: cx.waker().clone(), id: this.id, woken: this.woken.clone() }));
+        let mut cx2 = Context::from_waker(&w);
+        let inv = this.hist.stamp();
+        let fut = unsafe { Pin::new_unchecked(this.fut.as_mut().unwrap()) };
+        let r = fut.poll(&mut cx2);
+        this.hist.record(inv, this.thread, TM_POLL, this.id, r.is_ready() as u32);
+        if r.is_ready() {
+            this.completed = true;
+        }
+        r
+    }
+}
+impl<F> Drop for LoggedTimer<F> {
+    fn drop(&mut self) {
+        let inv = self.hist.stamp();
+        self.fut = None;
+        if !self.completed {
+            self.hist.record(inv, self.thread, TM_DROP, self.id, 0);
+        }
+    }
+}
+
 fn t_timer(cfg: &Cfg) {
     let n = cfg_get(cfg, "threads", 2) as usize;
     let iters = cfg_get(cfg, "iters", 2) as usize;
@@ -982,29 +1038,45 @@ fn t_timer(cfg: &Cfg) {
     clock.set(100);
     let timer = Arc::new(GenericTimerService::<M>::new(clock.as_dyn()));
     let remaining = Arc::new(AtomicUsize::new(n));
+    let hist = Arc::new(History::default());
+    let woken = Arc::new(AtomicU64::new(0));
+    let deadlines: Arc<StdMutex<Vec<u64>>> = Arc::new(StdMutex::new(Vec::new()));
     let mut hs = Vec::new();
     {
-        let (timer, remaining) = (timer.clone(), remaining.clone());
+        let (timer, remaining, hist, woken) = (timer.clone(), remaining.clone(), hist.clone(), woken.clone());
         hs.push(thread::spawn(move || {
             // the driver: advances the simulated clock and expires timers until every sleeper is done
             while remaining.load(SeqCst) > 0 {
                 let step = 1 + draw(8);
-                clock.set(clock.now() + step);
+                let t = clock.now() + step;
+                let inv = hist.stamp();
+                clock.set(t);
+                hist.record(inv, 0, TM_SET, t as u32, 0);
+                woken.store(0, SeqCst);
+                let inv = hist.stamp();
                 timer.check_expirations();
+                let mask = woken.swap(0, SeqCst);
+                hist.record(inv, 0, TM_CHECK, 0, mask as u32);
                 thread::yield_now();
             }
         }));
     }
     for i in 0..n {
-        let (timer, remaining) = (timer.clone(), remaining.clone());
+        let (timer, remaining, hist, woken, deadlines) = (timer.clone(), remaining.clone(), hist.clone(), woken.clone(), deadlines.clone());
         hs.push(thread::spawn(move || {
             for _ in 0..iters {
                 let deadline = clock.now() + draw(20);
+                let id = {
+                    let mut d = deadlines.lock().unwrap();
+                    d.push(deadline);
+                    (d.len() - 1) as u32
+                };
                 let budget = if draw(100) < p_budget { Some(draw(4) as u32) } else { None };
+                let f = LoggedTimer { fut: Some(Timer::deadline(&*timer, deadline)), hist: hist.clone(), woken: woken.clone(), thread: 1 + i as u32, id, completed: false };
                 let fired = match budget {
-                    Some(b) => block_on(budgeted(Timer::deadline(&*timer, deadline), b)).is_some(),
+                    Some(b) => block_on(budgeted(f, b)).is_some(),
                     None => {
-                        block_on(Timer::deadline(&*timer, deadline));
+                        block_on(f);
                         true
                     }
                 };
@@ -1022,11 +1094,178 @@ fn t_timer(cfg: &Cfg) {
         violation("C15", "next-expiration", "every timer future is gone but next_expiration() is not None".into());
     }
     queues_must_be_empty("timer", timer.verif_snapshot(&mut |_| false));
+    // linearizability against the sequential timer model: (now, registered, expired)
+    let ops = hist.ops.lock().unwrap().clone();
+    let dl = deadlines.lock().unwrap().clone();
+    if ops.len() <= 60 && dl.len() <= 30 {
+        let step = move |st: &(u64, u32, u32), op: &LinOp| -> Option<(u64, u32, u32)> {
+            let (now, reg, exp) = *st;
+            let bit = 1u32 << (op.arg & 31);
+            match op.kind {
+                TM_SET => Some((op.arg as u64, reg, exp)),
+                TM_CHECK => {
+                    let mut due = 0u32;
+                    for (i, d) in dl.iter().enumerate() {
+                        if reg & (1 << i) != 0 && *d <= now {
+                            due |= 1 << i;
+                        }
+                    }
+                    if op.res != due {
+                        return None;
+                    }
+                    Some((now, reg & !due, exp | due))
+                }
+                TM_POLL => {
+                    let ready = op.res != 0;
+                    if exp & bit != 0 {
+                        if ready {
+                            Some((now, reg, exp & !bit))
+                        } else {
+                            None
+                        }
+                    } else if reg & bit != 0 {
+                        if ready {
+                            None
+                        } else {
+                            Some(*st)
+                        }
+                    } else {
+                        let due = dl[(op.arg & 31) as usize] <= now;
+                        if ready != due {
+                            None
+                        } else if ready {
+                            Some(*st)
+                        } else {
+                            Some((now, reg | bit, exp))
+                        }
+                    }
+                }
+                _ => Some((now, reg & !bit, exp & !bit)),
+            }
+        };
+        if let Err(k) = lin::check(&ops, (100u64, 0u32, 0u32), &step) {
+            let mut sorted = ops.clone();
+            sorted.sort_by_key(|o| o.inv);
+            let names = ["set_clock", "check_expirations", "poll", "drop"];
+            let dl2 = deadlines.lock().unwrap().clone();
+            let txt: Vec<String> = sorted.iter().map(|o| format!("[{}..{}] t{} {}({})={}", o.inv, o.ret, o.thread, names[o.kind as usize], o.arg, o.res)).collect();
+            violation("C15", "not-linearizable", format!("the concurrent history of clock steps, check_expirations() (result = set of woken timers) and timer polls has no sequential explanation (at most {} of {} operations can be ordered); deadlines {:?}; history: {}", k, ops.len(), dl2, txt.join("; ")));
+        }
+    }
 }
 
 fn cfg_timer(rng: &mut Rng) -> Cfg {
     let mut c = Cfg::new();
     base_cfg(rng, &mut c);
+    c
+}
+
+// ================================================================ T-handles (last handles of both sides dropped concurrently)
+
+/// harness-side count of the live handles of one side; the decrement happens after `drop` returned
+struct Side {
+    live: AtomicUsize,
+    name: &'static str,
+}
+impl Side {
+    fn new(name: &'static str, n: usize) -> Arc<Side> {
+        Arc::new(Side { live: AtomicUsize::new(n), name })
+    }
+    fn cloning(&self) {
+        self.live.fetch_add(1, SeqCst);
+    }
+    /// call right after a handle of this side was dropped; `closed` reads the channel state
+    fn dropped(&self, closed: &dyn Fn() -> bool) {
+        if self.live.fetch_sub(1, SeqCst) == 1 && !closed() {
+            violation("C11", "not-closed-after-last-handle", format!("the drop of the last {} handle has returned but the channel is not closed", self.name));
+        }
+    }
+}
+
+macro_rules! handles_scenario {
+    ($tx:ident, $rx:ident, $obs:ident, $closed_key:expr, $recv:expr, $tx_clonable:expr, $what:expr) => {{
+        let obs = Arc::new($obs);
+        let txs = Side::new("sender", 1);
+        let rxs = Side::new("receiver", 1);
+        let closed = {
+            let obs = obs.clone();
+            move || obs.verif_snapshot(&mut |_| false).scalar($closed_key) == Some(1)
+        };
+        let mut hs = Vec::new();
+        // a witness whose receive future outlives every handle: it must be woken by the close
+        {
+            rxs.cloning();
+            let r = $rx.clone();
+            let (rxs, closed) = (rxs.clone(), closed.clone());
+            hs.push(thread::spawn(move || {
+                let f = $recv(&r);
+                drop(r);
+                rxs.dropped(&closed);
+                let _ = block_on(f);
+            }));
+        }
+        // churn on the receiver side, then the last receiver goes away
+        {
+            let (rxs, closed) = (rxs.clone(), closed.clone());
+            let rx = $rx;
+            hs.push(thread::spawn(move || {
+                if draw(2) == 0 {
+                    rxs.cloning();
+                    let extra = rx.clone();
+                    thread::yield_now();
+                    drop(extra);
+                    rxs.dropped(&closed);
+                }
+                drop(rx);
+                rxs.dropped(&closed);
+            }));
+        }
+        // the last sender goes away concurrently
+        {
+            let (txs, closed) = (txs.clone(), closed.clone());
+            let tx = $tx;
+            hs.push(thread::spawn(move || {
+                thread::yield_now();
+                drop(tx);
+                txs.dropped(&closed);
+            }));
+        }
+        let _ = $tx_clonable;
+        for h in hs {
+            h.join().unwrap();
+        }
+        if !closed() {
+            violation("C11", "not-closed-after-last-handle", format!("{}: every handle was dropped but the channel is not closed", $what));
+        }
+        let snap = obs.verif_snapshot(&mut |_| false);
+        queues_must_be_empty($what, snap);
+    }};
+}
+
+fn t_handles(cfg: &Cfg) {
+    match cfg_get(cfg, "kind", 0) {
+        0 => {
+            let (tx, rx) = sh::generic_channel::<M, u64, GrowingHeapBuf<u64>>(1);
+            let o = tx.verif_observer();
+            handles_scenario!(tx, rx, o, "is_closed", |r: &sh::GenericReceiver<M, u64, GrowingHeapBuf<u64>>| r.receive(), true, "shared mpmc channel")
+        }
+        1 => {
+            let (tx, rx) = sh::generic_state_broadcast_channel::<M, u64>();
+            let o = tx.verif_observer();
+            handles_scenario!(tx, rx, o, "is_closed", |r: &sh::GenericStateReceiver<M, u64>| r.receive(StateId::new()), true, "shared state broadcast channel")
+        }
+        _ => {
+            let (tx, rx) = sh::generic_oneshot_broadcast_channel::<M, u64>();
+            let o = tx.verif_observer();
+            handles_scenario!(tx, rx, o, "is_fulfilled", |r: &sh::GenericOneshotBroadcastReceiver<M, u64>| r.receive(), false, "shared oneshot broadcast channel")
+        }
+    }
+}
+
+fn cfg_handles(rng: &mut Rng) -> Cfg {
+    let mut c = Cfg::new();
+    base_cfg(rng, &mut c);
+    c.insert("kind".into(), rng.below(3) as i64);
     c
 }
 
@@ -1039,8 +1278,9 @@ static T_CHAN_SHARED: ThreadScenDef = ThreadScenDef { name: "T-chan-shared", pro
 static T_EVENT: ThreadScenDef = ThreadScenDef { name: "T-event", props: &["C14", "C01"], draw_cfg: cfg_event, body: t_event, liveness_prop: "C14" };
 static T_ONESHOT: ThreadScenDef = ThreadScenDef { name: "T-oneshot", props: &["C12", "C11", "C01"], draw_cfg: cfg_oneshot, body: t_oneshot, liveness_prop: "C12" };
 static T_STATE: ThreadScenDef = ThreadScenDef { name: "T-state", props: &["C13", "C11", "C01"], draw_cfg: cfg_state, body: t_state, liveness_prop: "C13" };
+static T_HANDLES: ThreadScenDef = ThreadScenDef { name: "T-handles", props: &["C11", "C01"], draw_cfg: cfg_handles, body: t_handles, liveness_prop: "C11" };
 static T_TIMER: ThreadScenDef = ThreadScenDef { name: "T-timer", props: &["C15", "C01"], draw_cfg: cfg_timer, body: t_timer, liveness_prop: "C15" };
 
 pub fn all() -> Vec<&'static ThreadScenDef> {
-    vec![&T_MUTEX, &T_SEM, &T_CHAN, &T_CHAN_SHARED, &T_EVENT, &T_ONESHOT, &T_STATE, &T_TIMER]
+    vec![&T_MUTEX, &T_SEM, &T_CHAN, &T_CHAN_SHARED, &T_EVENT, &T_ONESHOT, &T_STATE, &T_TIMER, &T_HANDLES]
 }
